@@ -84,6 +84,8 @@ EQ_BASES = {
     "r": (dict(p=2, q=1), dict(p=2, q=1, r=1)),
     "signature": (dict(signature=[1, -1]), dict(signature=[-1, 1])),
     "basis": (dict(p=3), dict(p=3, basis=["e", "e2", "e3", "e1", "e23", "e31", "e12", "e123"])),
+    # start_index is deliberately not a pair here: tests/test_kingdon.py::test_start_index compares elements of two algebras
+    # that differ in the start index only (`fi**2 == ei**2`), so upstream treats them as one algebra with two spellings.
 }
 
 
